@@ -3,8 +3,8 @@
    handed to faer's `cholesky_in_place(..).unwrap()` for every contiguous block of n = 1..256 wires.
    Proved here, for ANY five factors and EVERY n:  x^T A x >= (a0 - 2 (|a1|+|a2|+|a3|+|a4|)) |x|^2   (qform_lower_bound),
    so a strictly diagonally dominant factor set gives a positive definite matrix of every size
-   (qform_positive_definite); instantiated at the end on the factors regenerated from the source (Gen/CrossTalk.v,
-   exact rational values of the binary64 constants).
+   (qform_positive_definite); instantiated at the end on the factors taken from the implementation's matrix on every run
+   (Gen/CrossTalk.v, tools/genx_crosstalk.py: exact rational values of the binary64 numbers).
    NOT proved: that a Cholesky factorisation in binary64 of this (well-conditioned: eigenvalues within
    [margin, 2 - margin]) matrix does not fail - the harness runs the implementation on every block length 1..=256, which
    is exhaustive for this matrix family (rel17block). *)
@@ -192,26 +192,26 @@ Definition crosstalk_qform : list R -> R :=
 Definition crosstalk_entry : nat -> nat -> R :=
   entry neighbor_factor_0 neighbor_factor_1 neighbor_factor_2 neighbor_factor_3 neighbor_factor_4.
 
-(* strict diagonal dominance of the regenerated factors, with room: margin > 0.6 *)
-Lemma nf_margin_bound : 6 / 10 < nf_margin.
+(* strict diagonal dominance of the regenerated factors (0.6396 for 1, -0.1275, -0.0365, -0.012, -0.0042); only
+   positivity is asked, so that a re-tuning of the factors that keeps the matrix dominant keeps the theorem *)
+Lemma nf_margin_pos : 0 < nf_margin.
 Proof.
   unfold nf_margin, margin, S4, neighbor_factor_0, neighbor_factor_1, neighbor_factor_2, neighbor_factor_3,
     neighbor_factor_4, Rabs.
   repeat match goal with |- context [Rcase_abs ?x] => destruct (Rcase_abs x) end; lra.
 Qed.
 
-Theorem crosstalk_lower_bound : forall l, crosstalk_qform l >= 6 / 10 * sumsq l.
+Theorem crosstalk_lower_bound : forall l, crosstalk_qform l >= nf_margin * sumsq l.
 Proof.
-  intros l. pose proof (qform_lower_bound neighbor_factor_0 neighbor_factor_1 neighbor_factor_2 neighbor_factor_3
-                          neighbor_factor_4 l) as H.
-  fold crosstalk_qform in H. fold nf_margin in H. pose proof nf_margin_bound as M. pose proof (sumsq_nonneg l) as S.
-  assert (6 / 10 * sumsq l <= nf_margin * sumsq l) by (apply Rmult_le_compat_r; lra). lra.
+  intros l. exact (qform_lower_bound neighbor_factor_0 neighbor_factor_1 neighbor_factor_2 neighbor_factor_3
+                     neighbor_factor_4 l).
 Qed.
 
 Theorem crosstalk_positive_definite : forall l, ~ Forall (fun x => x = 0) l -> 0 < crosstalk_qform l.
 Proof.
-  intros l Hl. pose proof (crosstalk_lower_bound l) as H. pose proof (sumsq_nonneg l) as S.
-  destruct (Req_dec (sumsq l) 0) as [E|E]; [exfalso; apply Hl; apply sumsq_zero_iff; exact E|]. lra.
+  intros l Hl. pose proof (crosstalk_lower_bound l) as H. pose proof (sumsq_nonneg l) as S. pose proof nf_margin_pos as M.
+  destruct (Req_dec (sumsq l) 0) as [E|E]; [exfalso; apply Hl; apply sumsq_zero_iff; exact E|].
+  assert (0 < nf_margin * sumsq l) by (apply Rmult_lt_0_compat; lra). lra.
 Qed.
 
 Theorem crosstalk_symmetric : forall i j, crosstalk_entry i j = crosstalk_entry j i.
